@@ -81,6 +81,7 @@ type history struct {
 	start   int64 // chain head when the service starts
 	end     int64 // chain head at the end of the history
 	preErr  error // IndexBlock failed while building the earlier session's index
+	prepFake func(*FakeClient) // optional: configure the fake node of the next session (transient RPC faults)
 }
 
 func (h *history) initialDB() dbm.DB {
@@ -107,6 +108,7 @@ type sessionOutcome struct {
 	// OnStart did not return within stopGrace after Stop (observation, not a verdict)
 	stopHung  bool
 	stopStack string
+	faultsServed int64
 }
 
 // session runs the REAL EVMIndexerService + KVIndexer over db against a fresh fake node whose head
@@ -115,6 +117,9 @@ type sessionOutcome struct {
 func (h *history) session(db dbm.DB, crash *CrashDB, startHead, publishTo int64) sessionOutcome {
 	var out sessionOutcome
 	fake := NewFakeClient(h.st, nil, startHead)
+	if h.prepFake != nil {
+		h.prepFake(fake)
+	}
 	kv := indexer.NewKVIndexer(db, log.NewNopLogger(), h.cctx)
 	tap := &tapIndexer{KVIndexer: kv}
 	svc := evmserver.NewEVMIndexerService(tap, fake)
@@ -162,6 +167,7 @@ func (h *history) session(db dbm.DB, crash *CrashDB, startHead, publishTo int64)
 		out.stopStack = serviceStack()
 	}
 	out.indexed, out.maxRet, out.first = tap.calls.Load(), tap.maxReturned.Load(), tap.first.Load()
+	out.faultsServed = fake.FaultsServed.Load()
 	return out
 }
 
@@ -382,3 +388,61 @@ func (s *Store) hasIndexable(b int64, cctx client.Context) bool {
 }
 
 var _ = common.Hash{}
+
+
+// rpcFaults enumerates transient RPC faults: for every block of the window and each of the two fetch calls of the
+// service (Block, BlockResults) one session in which that call fails once (and once more: twice) while later blocks
+// are already available (catch-up) or arrive afterwards (live). A failed fetch is retried by the service; the final
+// index must equal the index of the fault-free run - the index is a function of the chain alone.
+func (h *history) rpcFaults(res *Result) {
+	refDB := h.initialDB()
+	ref0 := h.session(refDB, nil, h.start, h.end)
+	if ref0.watchdog || ref0.startErr != nil {
+		res.Inconclusive = append(res.Inconclusive, h.label+": fault-free reference session failed")
+		return
+	}
+	ref := DumpDB(refDB)
+	for _, catchUp := range []bool{true, false} {
+		for b := h.start + 1; b <= h.end; b++ {
+			for _, method := range []string{"Block", "BlockResults"} {
+				for _, times := range []int{1, 2} {
+					if times == 2 && (b-h.start)%3 != 0 {
+						continue
+					}
+					db := h.initialDB()
+					h.prepFake = func(f *FakeClient) { f.FailNext(method, b, times) }
+					var out sessionOutcome
+					if catchUp { // the node is already at the final head when the service starts: everything is catch-up
+						out = h.session(db, nil, h.end, h.end)
+					} else {
+						out = h.session(db, nil, h.start, h.end)
+					}
+					h.prepFake = nil
+					res.Evals++
+					mode := "live"
+					if catchUp {
+						mode = "catch-up"
+					}
+					if out.watchdog {
+						res.Inconclusive = append(res.Inconclusive, fmt.Sprintf("%s rpc fault %s(%d): watchdog", h.label, method, b))
+						continue
+					}
+					if out.faultsServed == 0 {
+						res.Count("rpc_fault_sessions_where_the_call_was_never_made", 1)
+						continue
+					}
+					res.Count("rpc_fault_sessions", 1)
+					res.Nontrivial(fmt.Sprintf("rpc-fault:%s:%s:x%d:%s", mode, method, times, h.mode))
+					want := ref
+					if catchUp && h.mode != "resume" {
+						continue // a fresh index started at the final head indexes nothing by design: no reference to compare with
+					}
+					if got := DumpDB(db); !bytes.Equal(got, want) {
+						res.Violation("index-differs-after-transient-rpc-error:"+method, h.label, map[string]any{"history": h.describe(), "mode": mode, "failed_call": method, "height": b, "times": times,
+							"entries_with_fault": countDump(got), "entries_fault_free": countDump(want), "blocks_with_ethereum_txs": h.ethBlocks()})
+					}
+				}
+			}
+		}
+	}
+}
